@@ -6,7 +6,7 @@ PROP = "C30"
 META = {
     "level": "fault_enumeration",
     "text": "Faults.tla composes the abstract machine with an environment action that fails one allocation at an arbitrary step; the only "
-            "admissible continuation is error(resource_error(memory), _) thrown from that point. TLC runs 7 workloads with the fault at every "
+            "admissible continuation is error(resource_error(memory), _) thrown from that point. TLC runs 9 workloads with the fault at every "
             "step, checks machine consistency in every terminal state and yields the admissible outcomes. The real machine runs the same "
             "workloads with the heap declared full d bytes ahead of its current length (verif-hooks virtual capacity: the growth attempt this "
             "provokes fails once), for d in steps of 8 bytes so that every allocation site the workload reaches becomes a failing growth; the "
